@@ -59,8 +59,15 @@ def gen(rng, tier, entry=None):
         return {"entry": entry, "term": t, "sseed": seed, "n": n, "doc": doc, "feature": ak}
     if entry == "part":
         node = rng.choice(G.containers(doc))[1]
-        return {"entry": entry, "part": c10.rand_part(rng, node, label_p=0.3), "sseed": seed, "n": n, "doc": node,
-                "feature": "part"}
+        part = c10.rand_part(rng, node, label_p=0.3)
+        ak = "part"
+        if part["p"] != "prim" and rng.random() < 0.4:
+            # a value condition with rewrite-prone arguments (data paths, path-like literals in lists / mappings)
+            cond, ak = cond_with_features(rng, doc)
+            if build.dtype_args_are_types(cond):
+                part = dict(part, value=cond)
+                ak = "part:" + ak
+        return {"entry": entry, "part": part, "sseed": seed, "n": n, "doc": node, "feature": ak}
     if entry in ("parts", "pathspec"):
         p = c10.rand_path(rng, doc, 4)
         if rng.random() < 0.3:
@@ -95,6 +102,14 @@ def strata(tier):
         {"entry": "cond", "term": PC.L("value", "items_contain", a={"$path": PC.mkpath([{"p": "prim", "v": "x"}])})},
         {"entry": "cond", "term": PC.L("value", "items_contain", path=5)},
     ]
+    Px = {"$path": PC.mkpath([{"p": "prim", "v": "x"}])}
+    for vc in (PC.L("value", "in_", [Px, 7]), PC.L("value", "in_", [{"path": ["A"]}, 7]), PC.L("value", "items_contain", a={"path": ["A"]}),
+               PC.L("value", "items_contain", a=Px), PC.L("value", "equal_to", {"k": {"path": ["A"]}}), PC.L("value", "in_range", Px, 5),
+               PC.L("value", "equal_to", [[Px]]), PC.L("value", "equal_to", {"path": ["A"]})):
+        for ptype in ("map", "list", "mol"):
+            fixed.append({"entry": "part", "part": {"p": ptype, "value": vc}})
+            fixed.append({"entry": "part", "part": {"p": ptype, "condition": vc}})
+            fixed.append({"entry": "parts", "path": PC.mkpath([{"p": "prim", "v": "a"}, {"p": ptype, "value": vc}])})
     for f in fixed:
         for n in (2, 3):
             yield dict(f, sseed=n, n=n, doc=doc, feature="rewrite-site")
